@@ -25,7 +25,7 @@ MANIFEST = {
             "compared instead; executing the code is not part of the check. x86 [ABSOLUTE] memory operands without a label and the "
             "movabs heuristic are not modelled. Model follows the repaired relocate_to_base tail (fixes/C04-1).",
 }
-MODS = ["AsmjitVerif.Props.C04", "AsmjitVerif.Props.C04E"]
+MODS = ["AsmjitVerif.Props.C04", "AsmjitVerif.Props.C04E", "AsmjitVerif.Props.C04K"]
 
 
 def addrtab_programs(rng, tier):
